@@ -27,7 +27,7 @@ META = {
                 "the solver claim is identity as functions of the state", "rounding"],
     "assumptions": ["reals for floats", "every atom carries a distinct random witness so that restored bytes can be re-labelled"],
 }
-TIMEOUT_S = {"quick": 600, "thorough": 3000}
+TIMEOUT_S = {"quick": 1200, "thorough": 3000}
 
 
 # ------------------------------------------------------------------------------------------------- relabelling after pickle
